@@ -32,6 +32,8 @@ def name(n):
 
 NONUTF = b'\xff\xfe\x80'
 CREDS = (b'', b'u', b'p' * 255, NONUTF)
+# the user name of simple authentication has a 16-bit length prefix: the values around its byte and sign boundaries
+USERS = CREDS + (b'U' * 256, b'U' * 32767, b'U' * 32768, b'U' * 65535)
 CONTENTS = (b'', b'\x00', bytes(range(256)) + b'c' * 44, b'\xab' * 65536)
 TAGLENS = (0, 1, 254, 255)
 
@@ -54,7 +56,7 @@ def entries(kind):
                 tags = [bytes([0x61 + i]) * ln for i, ln in enumerate(lens)]
                 yield ('routing', tuple(tags)), (lambda tags=tags: route(*tags))
     elif kind == 'simple':
-        for u, p in itertools.product(CREDS, CREDS):
+        for u, p in itertools.product(USERS, CREDS):
             yield ('simple', u, p), (lambda u=u, p=p: authenticate_simple(u, p))
     elif kind == 'bearer':
         for t in CREDS:
